@@ -168,7 +168,15 @@ class C18Session(Session):
     # -- the copy op ---------------------------------------------------------------
     def _copy_kwargs(self, kw, obj=None):
         out = {}
+        forms = getattr(self, "_kw_form", None) or {}
         for k, v in kw.items():
+            if forms.get(k) == "attrof":
+                out[k] = getattr(obj, k)  # what the original's own getter hands out: copy(pixel=orig.pixel)
+                continue
+            if forms.get(k) == "nd":
+                out[k] = np.array(v, dtype=float)  # a float64 array the caller keeps (and reuses afterwards)
+                self._caller_arrays.append(out[k])
+                continue
             if isinstance(v, dict) and "$substyle" in v:
                 # a style OBJECT taken from the original (documented input: "dict or `Path` object")
                 out[k] = getattr(obj.style, v["$substyle"])
@@ -268,12 +276,34 @@ class C18Session(Session):
         # failing copies first: the original world must stay bitwise what it was
         self._failing_copies(op, obj)
         kw = dict(op.get("kw", []))  # ordered list of [key, value] pairs: keyword order matters
+        self._kw_form = dict(op.get("kw_form", {}))
+        self._caller_arrays = []
+        for k, form in list(self._kw_form.items()):
+            cur = getattr(obj, k, None) if form == "attrof" else None
+            if form == "attrof" and (k not in kw or cur is None):
+                del self._kw_form[k]
+                kw.pop(k, None) if cur is None else None
+            elif form == "attrof":
+                kw[k] = np.asarray(cur, dtype=float).tolist()  # the value as it is now (replay after shrinking)
         pre = self._world_snap()
         f0 = self._probe_field(obj)
         pre = self._world_snap()
         style_state = ("init" if getattr(obj, "_style", None) is not None else
                        "lazy" if getattr(obj, "_style_kwargs", None) else "none")
         out, new = self._do_copy(obj, kw)
+        self._kw_form = {}
+        if out == "ok" and self._caller_arrays:
+            # the caller goes on using its arrays: the copy must not follow
+            before = snap_obj(new, lambda x: None, with_style=False)
+            for a in self._caller_arrays:
+                a += 7.0
+            if snap_obj(new, lambda x: None, with_style=False) != before:
+                raise Violation("copy_keeps_callers_array", "an array given as a copy() keyword is kept by reference: "
+                                "changing it afterwards changed the copy", op="copy",
+                                attr=sorted(k for k, f in (op.get("kw_form") or {}).items() if f == "nd")[0])
+            self.probe("caller_array_scribbled_after_copy")
+        if out == "ok" and any(f == "attrof" for f in (op.get("kw_form") or {}).values()):
+            self.probe("copy_with_originals_own_attribute_value")
         self.stats["ops"] += 1
         self.stats["copies"] += 1
         post = self._world_snap()
@@ -400,6 +430,14 @@ class C18Session(Session):
             if k in ("polarization", "magnetization") and k != exc_keys[-1]:
                 continue  # J and M are two views of one excitation: the later keyword wins
             got = getattr(new, k)
+            if (op.get("kw_form") or {}).get(k) == "attrof":
+                # the original's own value was given: the copy shows the same as the original (if nothing later
+                # in the keyword list is coupled to it), without any squeezing conventions in between
+                a, b = np.asarray(got, dtype=float), np.asarray(getattr(obj, k), dtype=float)
+                if a.shape != b.shape or not np.allclose(a, b, equal_nan=True):
+                    raise Violation("override_not_applied", f"copy.{k} != the original's {k} that was given",
+                                    op="copy", attr=k)
+                continue
             if k == "orientation":
                 qa, qb = np.atleast_2d(got.as_quat()), np.atleast_2d(rot_from(v).as_quat())
                 ok = qa.shape == qb.shape and bool(np.all(np.minimum(np.abs(qa - qb).max(axis=1),
@@ -748,6 +786,19 @@ class Sim:
                 else:
                     k, vals = rng.choice(style_leaves(cls))
                     kw["style_" + k] = rng.choice(vals)
+        # array valued overrides: as float64 arrays the caller keeps, or the original's own getter value
+        kw_form = {}
+        for k, v in kw.items():
+            if isinstance(v, list) and not k.startswith("style") and k != "orientation" and rng.random() < 0.35:
+                kw_form[k] = "nd"
+        if rng.random() < 0.15:
+            names = [a for a in ("pixel", "position", "polarization", "dimension", "vertices", "moment")
+                     if getattr(obj, a, None) is not None
+                     and getattr(getattr(type(obj), a, None), "fset", None) is not None]
+            if names:
+                a = rng.choice(names)
+                kw[a] = np.asarray(getattr(obj, a), dtype=float).tolist()
+                kw_form[a] = "attrof"
         if rng.random() < 0.2 and "style" not in kw:
             # a nested style dictionary as override, preferably below a top-level key the object already uses
             leaves = style_leaves(cls)
@@ -771,6 +822,8 @@ class Sim:
                 items.insert(rng.randint(0, len(items)), ("parent", rng.choice(cand)))
                 kw = dict(items)
         op = {"op": "copy", "o": o, "kw": [[k, v] for k, v in kw.items()]}
+        if kw_form:
+            op["kw_form"] = {k: f for k, f in kw_form.items() if k in kw}
         if cfg["fail_variants"]:
             vs = []
             nkw = len(kw)
